@@ -6,6 +6,12 @@ find_tip, half_peak_point, recovery_point).
 A case is a batch description: T, C, recovery offset k, a seed for the noise and one small parameter list per
 waveform (shape, polarity, peak position, trough position, amplitude ratio, width, noise level, peak channel,
 spatial decay, NaN-padded channels). The batch is rebuilt from it in run_case.
+
+Round 5 dimensions (drawn case fields, all optional for old corpus cases): dtype (float64 / float32 / int32), sampling
+rate fs, call form of the first call and of the repeated call (keywords, positional, all defaults, explicit
+recovery_duration_ms=0.16, return_peak_channel True / False), memory layout of the batch handed to the first call
+and of the arrays of the law calls (C, Fortran, swapped (n, C, T) storage, strided slice of a bigger array), the same
+argument object passed a second time after the law calls, the batch in another order.
 """
 import math
 
@@ -31,20 +37,42 @@ RULE = ("Case = batch of 1-30 synthetic multi-channel waveforms (T 10-200 sample
         "to T-1; every *_val equals the input at the reported index), the ordering law tip < peak <= trough, and "
         "three metamorphic laws on the implementation itself: scaling by 2**e (exact), channel permutation, batch == "
         "single-waveform calls and == concatenation of two sub-batches. All comparisons are exact (tolerance 0). "
+        "Dimensions of the call, drawn per case: dtype float64 / float32 / int32 (rounded to ~1e6 counts, no NaN), "
+        "sampling rate fs (30000 or 20000, 25000, 32000, 2500, 30000.0584 with recovery_duration_ms = k / fs), call form "
+        "(keywords, positional, no option at all = documented defaults fs=30000 / 0.16 ms = 5 samples, explicit 0.16 ms, "
+        "return_peak_channel True by keyword or position / False explicitly), memory layout of the argument (C, Fortran, "
+        "(n, C, T) storage with swapped axes, strided slice of a bigger array filled with junk; read-only arrays and lists "
+        "are rejected by the unchanged tree and therefore outside the domain). The argument is the caller's own array "
+        "(no private copy): afterwards it must have the same shape and dtype and the same values except that NaN may "
+        "have become 0 (documented NaN removal), storage around a strided view must be untouched; the same argument "
+        "object is passed a second time after the law calls (other data of the same shape in between), possibly in "
+        "another call form, and must give the same frame; a permuted batch must give the permuted frame; with "
+        "return_peak_channel=True the second output must be the input traces of the reported peak channel; the duration "
+        "and slope columns must follow from the reported indices / values and fs (docstrings: seconds, difference over "
+        "duration; relative tolerance 16 eps of the value dtype). "
         "Non-trivial = some waveform has its trough within the last 6 samples, or is a swapped row, or has a NaN "
         "channel. Distinct = distinct case hash.")
 EXHAUSTIVE_NOTE = ("grid T (quick 10,16; thorough 10..40) x peak position 1..T-1 x trough position peak..T-1 x polarity x "
                    "{strong r=3, weak r=1.2, weak r=1.8} of narrow (sigma 0.75 sample) single-channel spikes with 1 % noise "
-                   "is enumerated completely, k=5; widths, channel counts, noise and batch composition are sampled")
+                   "is enumerated completely, k=5; widths, channel counts, noise and batch composition are sampled; call form "
+                   "and memory layout cycle with the peak position over the grid (float64, fs=30000)")
 ASSUMPTIONS = [
-    "the input is a float array (float64 or float32) without exact ties between candidate extrema (continuous noise); "
+    "the input is a writeable numpy array (float64, float32, or int32 without NaN; any memory layout) without exact ties between candidate extrema (continuous noise); "
     "a waveform whose reference decision margin is exactly 0, or whose |peak/trough| is within 1e-5 of 1.5, is "
     "labelled and skipped (measured: never happens in float64)",
     "whole channels are NaN-padded (as produced at the probe edges), never all channels of a waveform",
     "recovery offset k < T (the function documents a ValueError otherwise)",
     "scaling is checked for c = 2**e only, so that equality is exact and no index can flip by rounding",
     "batch independence is checked on every row through a two-part split and on up to 4 rows through "
-    "single-waveform calls (2-D and 3-D input alternate)",
+    "single-waveform calls (2-D and 3-D input alternate), in a third of the cases also through a permuted batch",
+    "the function replaces NaN by 0 in the caller's array by design (not asserted either way); every other change of the "
+    "argument is a finding: the repository's own tests and the return_peak_channel output use the array after the call",
+    "read-only arrays (ValueError in the NaN removal) and lists (AttributeError) are rejected by the unchanged tree: not "
+    "drawn; unsigned integers wrap in the sign flip: outside the domain",
+    "the all-defaults call form is drawn only together with k=5 and fs=30000 (0.16 ms at 30 kHz is 4.8 samples and the "
+    "documented default offset of recovery_point is 5: nearest sample); otherwise recovery_duration_ms = 1000 k / fs",
+    "duration and slope columns are compared with the values that follow from the reported indices and values of the same "
+    "frame, not with the reference (a wrong index is reported once, under its own kind)",
     "root-cause routing: a batch in which the reference finds a trough exactly k samples before the end calls the code "
     "under kind C14.features.trough_at_T-k (known finding recovery_eq_T) and, when it crashes, is re-run without those "
     "waveforms so that all other assertions still apply; on rows that the reference classifies as 'swapped, new peak "
@@ -52,7 +80,7 @@ ASSUMPTIONS = [
     "while peak, trough, ordering, recovery index and the three laws keep their own kinds on those rows",
 ]
 BUDGET = {"quick": 2000, "thorough": 90000}
-# one case costs 80-200 ms (3 + up to 7 calls of ~13 ms each): no shrinking in the quick tier (the driver keeps the
+# one case costs 90-230 ms (3 + up to 9 calls of ~13 ms each): no shrinking in the quick tier (the driver keeps the
 # smallest failing case over the 16 shards); the thorough tier shrinks, bounded by the wall cap
 SHRINK = {"quick": False, "thorough": True}
 WALL_CAP = {"quick": 900, "thorough": 3600}
@@ -63,6 +91,15 @@ VAL_COLS = ["peak_val", "trough_val", "tip_val", "half_peak_post_val", "half_pea
 SLOPE_COLS = ["depolarisation_slope", "repolarisation_slope", "recovery_slope"]
 REQUIRED = ["peak_trace_idx"] + IDX_COLS + VAL_COLS + ["half_peak_duration"] + SLOPE_COLS
 AMPS = [1.0, 37.5, 8e-5, 2.5e-4]
+
+FS_DEFAULT = 30000
+FS_OTHER = [20000, 25000, 32000, 2500, 30000.0584]
+# call forms: how the options reach compute_spike_features
+FORMS_DEFAULT = ("default", "default_rpc", "ms016")      # need k == 5 and fs == 30000 (documented defaults)
+FORMS_ANY = ("kw", "pos", "rpc", "rpc_pos", "rpc_false")
+FORMS_RPC = ("rpc", "rpc_pos", "default_rpc")            # return_peak_channel=True: (frame, peak-channel traces)
+LAYOUTS = ("C", "F", "T", "S")
+ENUM_FORMS = ("kw", "default", "pos", "rpc", "ms016", "rpc_false", "default_rpc", "rpc_pos")
 
 KIND_FEATURES = "C14.features"
 KIND_FEATURES_EQ_T = "C14.features.trough_at_T-k"
@@ -128,10 +165,18 @@ def _case(draw):
     C = draw(st.one_of(st.integers(1, 6), st.integers(1, 40)))
     n = draw(st.one_of(st.integers(1, 4), st.integers(1, 30)))
     wavs = [draw(_wav(T, C)) for _ in range(n)]
-    return {"T": T, "C": C, "k": draw(st.sampled_from([5, 5, 5, 5, 1, 2, 3, 4, 6, 7, 8, 9])),
-            "seed": draw(st.integers(0, 2 ** 32 - 1)), "f32": draw(st.sampled_from([False, False, False, True])),
+    k = draw(st.sampled_from([5, 5, 5, 5, 1, 2, 3, 4, 6, 7, 8, 9]))
+    fs = draw(st.sampled_from([FS_DEFAULT] * 5 + FS_OTHER))
+    forms = FORMS_ANY + FORMS_ANY[:1] + (FORMS_DEFAULT if k == 5 and fs == FS_DEFAULT else ())
+    dtype = draw(st.sampled_from(["f64", "f64", "f64", "f64", "f64", "f64", "f32", "f32", "f32", "i32"]))
+    return {"T": T, "C": C, "k": k,
+            "seed": draw(st.integers(0, 2 ** 32 - 1)), "f32": dtype == "f32",
             "scale_exp": draw(st.sampled_from([-6, -3, -1, 1, 2, 5])), "split": draw(st.integers(0, 30)),
-            "laws": True, "wavs": wavs}
+            "laws": True, "wavs": wavs,
+            "dtype": dtype, "fs": fs, "form": draw(st.sampled_from(forms)), "form2": draw(st.sampled_from(forms)),
+            "layout": draw(st.sampled_from(LAYOUTS + ("C",))), "law_layout": draw(st.sampled_from(LAYOUTS + ("C",))),
+            "again": draw(st.sampled_from([True, True, True, False])),
+            "bperm": draw(st.sampled_from([True, False, False]))}
 
 
 def strategy(tier):
@@ -158,13 +203,22 @@ def enum_cases(desc):
                 for pos in range(1, T):
                     wavs = [{"shape": shape if tpos > pos else "mono", "pol": pol, "pos": pos, "tpos": tpos, "r": r,
                              "w": 3, "nz": 1, "amp": 0, "ch": 0, "spread": 6, "nan": []} for tpos in range(pos, T)]
+                    j = pos + T + (r // 60)
                     yield {"T": T, "C": 1, "k": 5, "seed": 1000 * T + pos, "f32": False, "scale_exp": 1,
-                           "split": pos, "laws": True, "wavs": wavs}
+                           "split": pos, "laws": True, "wavs": wavs,
+                           "dtype": "f64", "fs": FS_DEFAULT, "form": ENUM_FORMS[j % len(ENUM_FORMS)],
+                           "form2": ENUM_FORMS[(j // 2 + 3) % len(ENUM_FORMS)], "layout": LAYOUTS[j % len(LAYOUTS)],
+                           "law_layout": LAYOUTS[(j // 3) % len(LAYOUTS)], "again": True, "bperm": j % 3 == 0}
+
+
+def _dtype(case):
+    return case.get("dtype") or ("f32" if case.get("f32") else "f64")
 
 
 def build_batch(case):
-    """(n, T, C) array described by the case; NaN-padded channels are NaN."""
+    """(n, T, C) array described by the case; NaN-padded channels are NaN (0 for the integer dtype)."""
     T, C = case["T"], case["C"]
+    dt = _dtype(case)
     rng = np.random.default_rng(case["seed"])
     n = len(case["wavs"])
     W = np.zeros((n, T, C))
@@ -199,10 +253,15 @@ def build_batch(case):
         m0 = np.max(np.abs(w[0, :]))
         if m0 >= 0.4375 * big and m0 > 0:
             w[0, :] *= 0.4375 * big / m0
-        w[:, ~live] = np.nan
+        if dt == "i32":  # raw counts: about 1e6 at the peak, padded channels are flat
+            w = np.rint(w / A * 1e6)
+        else:
+            w[:, ~live] = np.nan
         W[i] = w
-    if case["f32"]:
+    if dt == "f32":
         W = W.astype(np.float32)
+    elif dt == "i32":
+        W = W.astype(np.int32)
     return W
 
 
@@ -317,17 +376,129 @@ KNOWN = {"recovery_eq_T": known_recovery_eq_T, "swap_pos_uninverted": known_swap
 
 # ------------------------------------------------------------------------------------------------
 
-def _features(W, k, **kw):
-    """call the code under test on a private copy (it overwrites NaN in its input) and return {column: ndarray}"""
+class _Arg:
+    """The argument object handed to the code under test: a fresh array with the values of `src` in the given memory
+    layout, the storage it is a view of, and a snapshot of that storage taken before the first call."""
+
+    def __init__(self, src, layout):
+        src = np.asarray(src)
+        if layout == "F":
+            a = owner = np.array(src, order="F", copy=True)
+        elif layout == "T":  # stored with time as the last axis (n, C, T), handed over with the axes swapped
+            owner = np.array(np.swapaxes(src, -1, -2), order="C", copy=True)
+            a = np.swapaxes(owner, -1, -2)
+        elif layout == "S":  # every second waveform and channel, a window in time, of a bigger array full of junk
+            T, C = src.shape[-2:]
+            junk = 2 ** 30 if src.dtype.kind == "i" else 1e30
+            shape = (T + 4, 2 * C + 1) if src.ndim == 2 else (2 * src.shape[0] + 1, T + 4, 2 * C + 1)
+            owner = np.full(shape, junk, dtype=src.dtype)
+            owner[..., ::3, :] *= -1
+            a = owner[3:3 + T, 1::2] if src.ndim == 2 else owner[1::2, 3:3 + T, 1::2]
+            a[...] = src
+        else:
+            a = owner = np.array(src, order="C", copy=True)
+        self.a, self.owner, self.snap = a, owner, owner.copy()
+        self.shape, self.dtype = a.shape, a.dtype
+
+    def touched(self):
+        """None, or what changed in the argument beyond the documented NaN -> 0"""
+        a, o, s0 = self.a, self.owner, self.snap
+        if a.shape != self.shape or a.dtype != self.dtype or o.shape != s0.shape:
+            return f"shape / dtype {self.shape} {self.dtype} became {a.shape} {a.dtype}"
+        with np.errstate(all="ignore"):
+            was_nan = np.isnan(s0)
+            ok = (o == s0) | (was_nan & (np.isnan(o) | (o == 0)))
+        if bool(np.all(ok)):
+            return None
+        bad = np.argwhere(~ok)
+        i = tuple(int(v) for v in bad[0])
+        return f"{len(bad)} element(s) of the storage changed, first at {i}: {s0[i]} -> {o[i]}"
+
+
+def _invoke(a, k, fs, form):
+    """the call into the repository in the drawn call form"""
     wf = sut.waveforms()
-    fs = 30000
-    df = wf.compute_spike_features(np.array(W, copy=True), fs=fs, recovery_duration_ms=k * 1000.0 / fs, **kw)
-    return {str(c): np.asarray(df[c].to_numpy()) for c in df.columns}
+    ms = k * 1000.0 / fs
+    if form == "default":
+        return wf.compute_spike_features(a)
+    if form == "default_rpc":
+        return wf.compute_spike_features(a, return_peak_channel=True)
+    if form == "ms016":
+        return wf.compute_spike_features(a, fs=FS_DEFAULT, recovery_duration_ms=0.16)
+    if form == "pos":
+        return wf.compute_spike_features(a, fs, ms)
+    if form == "rpc":
+        return wf.compute_spike_features(a, fs=fs, recovery_duration_ms=ms, return_peak_channel=True)
+    if form == "rpc_pos":
+        return wf.compute_spike_features(a, fs, ms, True)
+    if form == "rpc_false":
+        return wf.compute_spike_features(a, recovery_duration_ms=ms, return_peak_channel=False, fs=fs)
+    return wf.compute_spike_features(a, fs=fs, recovery_duration_ms=ms)
+
+
+def _form(form, k, fs):
+    """the all-defaults forms mean k = 5 at 30 kHz; anything else falls back to keywords"""
+    if form in FORMS_DEFAULT and not (k == 5 and fs == FS_DEFAULT):
+        return "kw"
+    return form if form in FORMS_DEFAULT + FORMS_ANY else "kw"
+
+
+def _features(ctx, kind, arg, k, fs=FS_DEFAULT, form="kw", src=None):
+    """Call the code under test on arg (an _Arg: the caller's own array, no private copy) and return {column: ndarray},
+    or ctx.CRASH. What came back is validated here; with return_peak_channel=True the traces are compared with `src`."""
+    form = _form(form, k, fs)
+    r = ctx.call(kind, _invoke, arg.a, k, fs, form)
+    if r is ctx.CRASH:
+        return r
+    t = arg.touched()
+    ctx.check(t is None, "C14.input_mutated", lambda: f"{kind} ({form}, {arg.a.ndim}-D): the caller's array was modified: {t}")
+    real = None
+    if form in FORMS_RPC:
+        if not ctx.check(isinstance(r, tuple) and len(r) == 2, "C14.peak_channel",
+                         lambda: f"return_peak_channel=True returned {type(r).__name__}, expected (frame, traces)"):
+            return ctx.CRASH
+        r, real = r
+    cols = getattr(r, "columns", None)
+    if not ctx.check(cols is not None and not isinstance(r, tuple), "C14.frame",
+                     lambda: f"{kind} ({form}): returned {type(r).__name__}, expected a data frame"):
+        return ctx.CRASH
+    try:
+        got = {str(c): np.array(r[c].to_numpy(), copy=True) for c in cols}
+    except Exception as e:  # noqa - whatever broken code returned: a finding, not a harness error
+        ctx.fail("C14.frame", f"{kind} ({form}): columns of the returned frame cannot be read: {type(e).__name__}: {e}")
+        return ctx.CRASH
+    if real is not None and src is not None:
+        _check_peak_channel(ctx, got, real, src)
+    return got
+
+
+def _check_peak_channel(ctx, got, real, src):
+    """return_peak_channel=True: the second output holds, for every waveform, the input trace of its peak channel"""
+    src = np.asarray(src)
+    if src.ndim == 2:
+        src = src[np.newaxis]
+    n, T, C = src.shape
+    idx = got.get("peak_trace_idx")
+    if not ctx.check(isinstance(real, np.ndarray) and real.shape == (n, T), "C14.peak_channel",
+                     lambda: f"peak-channel traces: {type(real).__name__} of shape {getattr(real, 'shape', None)}, "
+                             f"expected ndarray {(n, T)}"):
+        return
+    if idx is None or idx.shape != (n,) or idx.dtype.kind not in "iuf" or \
+            not all(float(j).is_integer() and 0 <= j < C for j in idx):
+        return  # reported under C14.frame / C14.peak
+    exp = np.where(np.isnan(src), 0, src)[np.arange(n), :, idx.astype(int)]
+    ok = real.dtype.kind in "iuf" and np.array_equal(real, exp)
+    ctx.check(ok, "C14.peak_channel",
+              lambda: f"peak-channel traces differ from the input traces of peak_trace_idx in rows "
+                      f"{sorted(set(np.argwhere(real != exp)[:, 0].tolist()))[:8]}")
 
 
 def _same(a, b):
-    a = np.asarray(a, dtype=float)
-    b = np.asarray(b, dtype=float)
+    try:
+        a = np.asarray(a, dtype=float)
+        b = np.asarray(b, dtype=float)
+    except (TypeError, ValueError):
+        return False
     return a.shape == b.shape and bool(np.array_equal(a, b, equal_nan=True))
 
 
@@ -336,22 +507,59 @@ def _diff_cols(d1, d2, skip=()):
     return [c for c in cols if c not in d1 or c not in d2 or not _same(d1[c], d2[c])]
 
 
+def _check_fs_columns(ctx, got, fs, n):
+    """Durations are index differences over fs (docstrings: seconds); slopes are value differences over those durations
+    (docstrings of polarisation_slopes / recovery_slope). Compared with the indices and values of the same frame."""
+    try:
+        g = {c: np.asarray(v, dtype=float) for c, v in got.items()}
+    except (TypeError, ValueError):
+        return  # non-numeric columns are reported by the row comparison
+    eps = max([np.finfo(v.dtype).eps for c, v in got.items() if c.endswith("_val") and v.dtype.kind == "f"] +
+              [np.finfo(float).eps])
+    with np.errstate(all="ignore"):
+        for name, hi, lo in (("half_peak_duration", "half_peak_post_time_idx", "half_peak_pre_time_idx"),
+                             ("peak_to_trough_duration", "trough_time_idx", "peak_time_idx")):
+            if name not in g:
+                continue  # peak_to_trough_duration is not in the documented list of features
+            exp = (g[hi] - g[lo]) / fs
+            bad = np.flatnonzero(~(np.abs(g[name] - exp) <= 1e-12 * np.abs(exp)))
+            ctx.check(bad.size == 0, "C14.duration",
+                      lambda: f"row {bad[0]}: {name} = {g[name][bad[0]]!r} but ({hi} - {lo}) / fs = {exp[bad[0]]!r} "
+                              f"(fs={fs})")
+        for name, a, b in (("depolarisation_slope", "peak", "tip"), ("repolarisation_slope", "trough", "peak"),
+                           ("recovery_slope", "recovery", "trough")):
+            dt = g[a + "_time_idx"] - g[b + "_time_idx"]
+            va, vb = g[a + "_val"], g[b + "_val"]
+            use = (dt != 0) & np.isfinite(va) & np.isfinite(vb)
+            exp = (va - vb) / (dt / fs)
+            tol = 16 * eps * (np.abs(va) + np.abs(vb)) * fs / np.abs(dt)
+            bad = np.flatnonzero(use & ~(np.abs(g[name] - exp) <= tol))
+            ctx.check(bad.size == 0, "C14.slope",
+                      lambda: f"row {bad[0]}: {name} = {g[name][bad[0]]!r} but ({a}_val - {b}_val) / (({a}_time_idx - "
+                              f"{b}_time_idx) / fs) = {exp[bad[0]]!r} (fs={fs})")
+
+
 def run_case(case, ctx):
     T, C, k = case["T"], case["C"], case["k"]
-    W = build_batch(case)
+    dt = _dtype(case)
+    fs = case.get("fs", FS_DEFAULT)
+    form, form2 = _form(case.get("form", "kw"), k, fs), _form(case.get("form2", "kw"), k, fs)
+    layout, law_layout = case.get("layout", "C"), case.get("law_layout", "C")
+    W = build_batch(case)  # never handed to the code under test: every call gets a fresh _Arg built from it
     n = W.shape[0]
     Wz = np.where(np.isnan(W), 0, W)
     refs = [ref_features(Wz[i].tolist(), k) for i in range(n)]
 
     # ---- classes, non-triviality
-    ctx.label("f32" if case["f32"] else "f64", "C1" if C == 1 else "C>1", "n1" if n == 1 else "n>1",
-              "k5" if k == 5 else "k!=5")
+    ctx.label(dt, "C1" if C == 1 else "C>1", "n1" if n == 1 else "n>1", "k5" if k == 5 else "k!=5",
+              "fs_default" if fs == FS_DEFAULT else "fs_other", "form_" + form, "layout_" + layout,
+              "law_layout_" + law_layout)
     eq_T = []
     for i, r in enumerate(refs):
         if r["skip"]:
             ctx.label("skip_" + r["skip"])
             continue
-        nanch = bool(case["wavs"][i]["nan"])
+        nanch = bool(case["wavs"][i]["nan"]) and dt != "i32"
         ctx.label("peak_pos" if r["pv"] > 0 else "peak_neg")
         if r["swapped"]:
             ctx.label("swap_pos" if r["pv"] > 0 else "swap_neg")
@@ -388,7 +596,8 @@ def run_case(case, ctx):
 
     # ---- the call must succeed on the whole batch
     rows = list(range(n))
-    got = ctx.call(KIND_FEATURES_EQ_T if eq_T else KIND_FEATURES, _features, W, k)
+    arg = _Arg(W, layout)
+    got = _features(ctx, KIND_FEATURES_EQ_T if eq_T else KIND_FEATURES, arg, k, fs, form, src=W)
     if got is ctx.CRASH:
         if not eq_T:
             return
@@ -398,7 +607,8 @@ def run_case(case, ctx):
             return
         W = W[rows]
         refs = [refs[i] for i in rows]
-        got = ctx.call(KIND_FEATURES, _features, W, k)
+        arg = _Arg(W, layout)
+        got = _features(ctx, KIND_FEATURES, arg, k, fs, form, src=W)
         if got is ctx.CRASH:
             return
     n = len(rows)
@@ -407,6 +617,7 @@ def run_case(case, ctx):
                      lambda: f"missing columns {missing} or wrong number of rows (expected {n})"):
         return
     Wz = np.where(np.isnan(W), 0, W)
+    _check_fs_columns(ctx, got, fs, n)
 
     # ---- reference comparison, row by row
     for i, r in enumerate(refs):
@@ -461,9 +672,9 @@ def run_case(case, ctx):
         return
 
     # ---- scaling by c = 2**e: values scale, indices and ratios do not
-    c = 2.0 ** case["scale_exp"]
+    c = 2.0 ** (abs(case["scale_exp"]) if dt == "i32" else case["scale_exp"])
     Ws = W * W.dtype.type(c)
-    gs = ctx.call("C14.scale", _features, Ws, k)
+    gs = _features(ctx, "C14.scale", _Arg(Ws, law_layout), k, fs)
     if gs is not ctx.CRASH:
         exp = {}
         for name, v in got.items():
@@ -481,7 +692,7 @@ def run_case(case, ctx):
     # ---- channel permutation only permutes peak_trace_idx
     if C > 1 and not any(r["skip"] == "tie" for r in refs):  # an exact tie between traces is resolved by position
         perm = np.random.default_rng(case["seed"] ^ 0x5EED).permutation(C)
-        gp = ctx.call("C14.perm", _features, W[:, :, perm], k)
+        gp = _features(ctx, "C14.perm", _Arg(W[:, :, perm], law_layout), k, fs)
         if gp is not ctx.CRASH:
             bad = _diff_cols(got, gp, skip=("peak_trace_idx",))
             ok_idx = "peak_trace_idx" in gp and gp["peak_trace_idx"].shape == (n,) and \
@@ -494,8 +705,8 @@ def run_case(case, ctx):
     # ---- batch independence
     if n > 1:
         s = 1 + case["split"] % (n - 1)
-        ga = ctx.call("C14.batch", _features, W[:s], k)
-        gb = ctx.call("C14.batch", _features, W[s:], k)
+        ga = _features(ctx, "C14.batch", _Arg(W[:s], law_layout), k, fs)
+        gb = _features(ctx, "C14.batch", _Arg(W[s:], law_layout), k, fs)
         if ga is not ctx.CRASH and gb is not ctx.CRASH:
             cat = {name: np.concatenate([ga[name], gb[name]]) for name in ga if name in gb}
             bad = _diff_cols(got, cat)
@@ -503,7 +714,7 @@ def run_case(case, ctx):
         pick = np.random.default_rng(case["seed"] ^ 0xBA7C).permutation(n)[:4]
         for i in sorted(int(j) for j in pick):
             one = W[i] if i % 2 == 0 else W[i:i + 1]
-            g1 = ctx.call("C14.batch", _features, one, k)
+            g1 = _features(ctx, "C14.batch", _Arg(one, law_layout), k, fs)
             if g1 is ctx.CRASH:
                 continue
             row = {name: got[name][i:i + 1] for name in got}
@@ -511,7 +722,27 @@ def run_case(case, ctx):
             ctx.check(not bad, "C14.batch", lambda: f"row {rows[i]} of the batch differs from the single-waveform "
                                                     f"call ({one.ndim}-D input) in {bad}")
     else:
-        g2 = ctx.call("C14.batch", _features, W[0], k)
+        g2 = _features(ctx, "C14.batch", _Arg(W[0], law_layout), k, fs)
         if g2 is not ctx.CRASH:
             bad = _diff_cols(got, g2)
             ctx.check(not bad, "C14.batch", lambda: f"2-D input differs from the 1 x T x C input in {bad}")
+
+    # ---- the batch in another order: each waveform keeps its features whatever its position and its neighbours
+    if n > 1 and case.get("bperm", False):
+        ctx.label("batch_permuted")
+        order = np.random.default_rng(case["seed"] ^ 0xB0D3).permutation(n)
+        go = _features(ctx, "C14.batch_order", _Arg(W[order], law_layout), k, fs)
+        if go is not ctx.CRASH:
+            bad = _diff_cols({name: v[order] for name, v in got.items()}, go)
+            ctx.check(not bad, "C14.batch_order",
+                      lambda: f"batch in the order {order.tolist()}: columns {bad} are not the permuted columns of the batch")
+
+    # ---- the same argument object a second time (other data of the same shape went through the function in between)
+    if case.get("again", True):
+        ctx.label("again_" + form2)
+        g3 = _features(ctx, "C14.again", arg, k, fs, form2, src=W)
+        if g3 is not ctx.CRASH:
+            bad = _diff_cols(got, g3)
+            ctx.check(not bad, "C14.again",
+                      lambda: f"second call with the same array object ({form2} after {form}, layout {layout}): columns "
+                              f"{bad} differ from the first call")
